@@ -323,3 +323,47 @@ for ln, tier in ((4, "quick"), (5, "thorough"), (6, "thorough")):
       functions=TPL_FUNCS, shape="STR", bounds=f"all templates of exactly {ln} bytes over {{$,A,T,_,1,' ',\\n}}, transform keys {{T}}; unwind 10")
 
 
+
+# ---------------------------------------------------------------- C02 cut-and-match
+CUTS = [("self_k1", "no hole", 1, "quick"), ("self_k2", "no hole", 2, "quick"), ("hole0_k2", "hole at child 0", 2, "quick"), ("ell1_k2", "$$$E from child 1", 2, "quick"),
+        ("hole1_k2", "hole at child 1", 2, "thorough"), ("hole01_k2", "holes at children 0,1", 2, "thorough"), ("ell0_k2", "$$$E from child 0", 2, "thorough"),
+        ("self_k3", "no hole", 3, "thorough"), ("hole1_k3", "hole at child 1", 3, "thorough"), ("hole02_k3", "holes at children 0,2", 3, "thorough"),
+        ("ell1_k3", "$$$E from child 1", 3, "thorough"), ("hole0_ell2_k3", "hole at 0, $$$E from child 2", 3, "thorough")]
+for suf, desc, k, tier in CUTS:
+    H(prop="C02", name=f"c02_{suf}", crate="core-h", module="c02_cut", recursion=REC_FLAT, loops=LOOPS_FLAT, features=["hooks", "n4"], kani_args=LIGHT, timeout=1500 if tier == "quick" else 5400, tier=tier, mem_gb=20,
+      decides=f"pattern cut from a FLAT({k}) sibling list ({desc}) matches that list at every strictness and binds each hole to exactly the replaced child / siblings",
+      functions=ALIGN_FUNCS + ["ast_grep_core::meta_var::MetaVarEnv::insert_multi"], assumes=ALIGN_ASSUMES + [ST_MAP, "premise of the property assumed: the pattern tree has the code's shape (built from the candidate's own labels)"],
+      shape=f"FLAT({k})", bounds=f"{k} candidate leaves with symbolic kind/text (no ERROR/missing), holes only at named children, all 5 strictness; unwind 10, recursion depth 2")
+
+# ---------------------------------------------------------------- C01 / C06 search drivers
+SEARCH_ASSUMES = [ST_TS, "matcher stub SymM: symbolic verdict per node; potential_kinds assumed to contain the kind of every node it accepts (the trait's contract)"]
+for n, tier in ((4, "quick"), (5, "thorough")):
+    H(prop="C01", name=f"c01_find_all_exact_n{n}", crate="core-h", module="c01_search", tier=tier,
+      decides="FindAllNodes (kind prefilter + Pre) yields exactly the matching nodes of the subtree, ascending document order, none dropped/invented/duplicated",
+      functions=["ast_grep_core::matcher::FindAllNodes::next", "ast_grep_core::traversal::Pre::next"], assumes=SEARCH_ASSUMES,
+      shape=f"ANY({n})", bounds=f"every tree <= {n} nodes, every start node, symbolic verdict vector, symbolic kind set (or None) over kinds 1..8; unwind 10", timeout=5400 if n == 5 else 1800, mem_gb=20)
+    H(prop="C01", name=f"c01_outermost_pre_n{n}", crate="core-h", module="c01_search", tier=tier,
+      decides="Visitor::reentrant(false) yields exactly the matched nodes without a matched proper ancestor, in document order",
+      functions=["ast_grep_core::traversal::Visit::next", "ast_grep_core::traversal::Pre::calibrate_for_match", "ast_grep_core::traversal::Pre::trace_up"], assumes=SEARCH_ASSUMES,
+      shape=f"ANY({n})", bounds=f"every tree <= {n} nodes, every start node, symbolic verdict vector; unwind 10", timeout=5400 if n == 5 else 1800, mem_gb=20)
+H(prop="C06", name="c06_replace_all_disjoint_n4", crate="core-h", module="c01_search",
+  decides="Node::replace_all: edits ordered, pairwise disjoint, inside the file; each edit = [matched.start, matched.start + match_len)",
+  functions=["ast_grep_core::node::Node::replace_all", "ast_grep_core::matcher::node_match::NodeMatch::make_edit", "ast_grep_core::replacer::Replacer::get_replaced_range"],
+  assumes=SEARCH_ASSUMES + ["get_match_len stub returns a length <= the node's length"],
+  shape="ANY(4)", bounds="every tree <= 4 nodes, symbolic verdicts and match lengths; unwind 10", timeout=1800, mem_gb=20)
+
+# ---------------------------------------------------------------- re-added small harnesses
+for n, tier in ((4, "quick"), (5, "thorough")):
+    H(prop="C11", name=f"c11_string_case_split_{n}ch", crate="config-h", module="small_kernels", fq=f"small_kernels::proofs_case::c11_string_case_split_{n}ch", tier=tier,
+      decides="string_case::split (word splitter of `convert`) never panics / slices off a char boundary; pieces are in-order non-overlapping sub-slices",
+      functions=["ast_grep_config::transform::string_case::split", "ast_grep_config::transform::string_case::Delimiter::delimit", "ast_grep_config::transform::string_case::Delimiter::conclude"],
+      assumes=[ST_UTF8], shape="STR", bounds=f"all texts of <= {n} chars over {{a, A, _, E-acute(2 bytes, upper case)}}; unwind {2*n}", timeout=1800 if n == 4 else 5400)
+H(prop="C11", name="c11_replace_invalid_regex_rejected", crate="config-h", module="c12_fix_forms", stubbing=True, timeout=1200,
+  decides="Transformation::parse rejects a `replace` transformation whose regex does not compile (so no scan-time unwrap panic is reachable for accepted configs)",
+  functions=["ast_grep_config::transform::transformation::Transformation::parse", "ast_grep_config::transform::transformation::Replace::compute"],
+  assumes=[ST_REGEX, ST_SERDE], shape="1 config", bounds="replace{source:$A, replace:<any string Regex::new rejects>}; unwind 10")
+H(prop="C12", name="c12_fix_forms_agree", crate="config-h", module="c12_fix_forms", stubbing=True, timeout=1800, mem_gb=20, kani_args=LIGHT,
+  decides="fix `$T` in string form and in object form ({template: $T}) both expand a transformed variable T to its value",
+  functions=["ast_grep_config::fixer::Fixer::parse", "ast_grep_config::fixer::Fixer::do_parse", "ast_grep_core::replacer::template::TemplateFix::with_transform",
+             "ast_grep_core::replacer::template::replace_fixer", "ast_grep_core::replacer::template::maybe_get_var"],
+  assumes=[ST_TS, ST_MAP, ST_REGEX, ST_SERDE], kf_keys=["object_fix_ignores_transform"], shape="1 node", bounds="template `$T`, transform keys {T}, T = `v`; form symbolic; unwind 10")
